@@ -57,6 +57,11 @@ def main():
         base = {}
         for i in ids:
             meta = json.load(open(f"{ROOT}/seeded/{i}/meta.json"))
+            if meta.get("superseded"):
+                print(i, "SKIPPED (superseded):", meta["superseded"][:80], flush=True)
+                if i in results:
+                    results[i]["superseded"] = meta["superseded"]
+                continue
             checks = meta.get("caught_by_checks") or [f"{meta['property']} quick"]
             out, detected = [], False
             for c in checks:
